@@ -179,6 +179,20 @@ theorem countRun_exact : ∀ (evs : List CountEv) (n fr n' fr' : Nat),
       have : 0 < n := Nat.pos_of_ne_zero h0
       simp [this]
 
+theorem clones_perm {a b : List CountEv} (h : a.Perm b) : clones a = clones b := by
+  induction h with
+  | nil => rfl
+  | cons x _ ih => cases x <;> simp [clones, ih]
+  | swap x y l => cases x <;> cases y <;> simp [clones]
+  | trans _ _ ih1 ih2 => exact ih1.trans ih2
+
+theorem drops_perm {a b : List CountEv} (h : a.Perm b) : drops a = drops b := by
+  induction h with
+  | nil => rfl
+  | cons x _ ih => cases x <;> simp [drops, ih]
+  | swap x y l => cases x <;> cases y <;> simp [drops]
+  | trans _ _ ih1 ih2 => exact ih1.trans ih2
+
 /-! ### swaps under an exclusive lock serialise -/
 
 /-- a whole swap as one action -/
